@@ -443,7 +443,6 @@ def _div_terms(a, b):
 
 class SymReal:
     __slots__ = ("e",)
-    __array_priority__ = 1000
 
     def __init__(self, e):
         self.e = e
